@@ -39,6 +39,7 @@ func runC07(p *Program, e *Engine, r *Result, tier string) {
 		return
 	}
 	c07Guarded(a)
+	c07Returns(a)
 	c07Deref(a, "C07.4")
 	c05R1(a, "C07.5")
 	c05R4(a, "C07.5")
@@ -53,6 +54,7 @@ type access struct {
 	pos    string
 	chain  string
 	table  bool
+	kernel bool
 }
 
 func syncType(t types.Type) bool {
@@ -139,6 +141,18 @@ func collectAccesses(a *An, root *ssa.Function) []access {
 				}
 			}
 		case *ssa.Call:
+			if cal := v.Ctx.calleeOf(&x.Call); cal != nil && len(x.Call.Args) > 0 {
+				if pk := fnPkg(cal); pk != nil && strings.HasPrefix(pk.Pkg.Path(), "golang.org/x/sys/") {
+					// a kernel call on the backend's own descriptor field: part of the bookkeeping transaction
+					if f := v.Ctx.fieldOfValue(x.Call.Args[0]); f != nil && ro.StructOf[f] == ro.Backend {
+						switch cal.Name() {
+						case "InotifyAddWatch", "InotifyRmWatch":
+							out = append(out, access{loc: "kernel-watch-list(" + fieldStr(ro, f) + ")", write: true, must: v.Must, region: v.Region, root: shortFn(root),
+								pos: a.P.instrPos(v.Instr), chain: v.Ctx.chain(), table: true, kernel: true})
+						}
+					}
+				}
+			}
 			if args, ok := isBuiltinCall(x, "delete"); ok && len(args) == 2 {
 				if l := mapLoc(v, args[0]); l != "" {
 					add(v, l, true, true)
@@ -267,6 +281,39 @@ func c07Guarded(a *An) {
 			sort.Strings(desc)
 			a.R.ob("C07.3", "one-section("+r+","+lk+")", "all table accesses of one API call / one handler activation lie in a single critical section (check-then-act atomicity)", "-", ok,
 				strings.Join(desc, "; "))
+		}
+	}
+}
+
+// c07Returns: reference-typed results of API methods are freshly allocated, never an alias of shared state.
+func c07Returns(a *An) {
+	for _, m := range a.Ro.apiRoots() {
+		res := m.Signature.Results()
+		for i := 0; i < res.Len(); i++ {
+			switch res.At(i).Type().Underlying().(type) {
+			case *types.Slice, *types.Map, *types.Pointer:
+			default:
+				continue
+			}
+			w := a.walk(m)
+			var all []string
+			for _, v := range w.Visits {
+				r, ok := v.Instr.(*ssa.Return)
+				if !ok || v.Ctx.Parent != nil || i >= len(r.Results) {
+					continue
+				}
+				all = append(all, origins(v.Ctx, r.Results[i], 0)...)
+			}
+			all = uniq(all)
+			var bad []string
+			for _, o := range all {
+				if o == "nil" || o == "make" || o == "alloc" || strings.HasPrefix(o, "const:") {
+					continue
+				}
+				bad = append(bad, o)
+			}
+			a.R.ob("C07.6", "fresh-result("+m.Name()+")", "a slice/map/pointer returned by an API method must be allocated by that call (a shared backing array is raced on by concurrent callers)",
+				a.P.pos(m.Pos()), len(bad) == 0, sprintf("origins of the result: %s; not call-local: %s", fmtList(all), fmtList(bad)))
 		}
 	}
 }
